@@ -268,6 +268,112 @@ def route_cases(ctx, out):
                                       "impl": {"lines": text.split("\n")[-6:]}})
 
 
+def _mk(typed, sp):
+    t, nn, c, s_, e_ = sp
+    return SC.typed_record(None, t, nn or None, c, s_, e_) if typed else SC.untyped_record(t, nn or "", c, str(s_), str(e_))
+
+
+def _judge_file(where, text, snaps, order, contigs, sort, typed):
+    """The property on one produced file: header, column line, every written state exactly once, in the order the
+    file's own pragmas declare (or in write order when not sorting), and readable to the end by the library's reader."""
+    fails = []
+    _hdr, _cols, body = body_lines(text)
+    if sorted(body) != sorted(snaps):
+        fails.append(dict(where, what="the file does not hold every written record exactly once (%d written, %d lines; states written vs lines differ)" % (len(snaps), len(body)),
+                          kind="live-not-permutation", got=[b.split("\t")[:8] for b in body][:6]))
+        return fails
+    if not sort and body != snaps:
+        fails.append(dict(where, what="with sorting off the records do not appear in the order they were written", kind="live-order"))
+    if sort:
+        from maflib.record import MafRecord
+        from maflib.validation import ValidationStringency as VS
+        sch = impl.scheme_by_annotation("gdc-1.0.0") if typed else None
+        names = None if typed else UNTYPED
+        locs = [SC.loc_json(MafRecord.from_line(b, scheme=sch, column_names=names, validation_stringency=VS.Silent)) for b in body]
+        bad = [i for i in range(len(locs) - 1) if expected_cmp(locs[i], locs[i + 1], order, contigs or []) > 0]
+        if bad:
+            fails.append(dict(where, what="the file is not in the order its own sort.order / contigs pragmas declare (body line %d)" % (bad[0] + 1), kind="live-unsorted", keys=locs[bad[0]:bad[0] + 2]))
+    if sort:       # (with sorting off the caller is responsible for the order: the property only promises the write order)
+        n, err = own_reader(text, None, "Strict" if typed else "Silent")
+        if err or n != len(body):
+            fails.append(dict(where, what="the library's reader does not iterate the produced file to the end", kind="live-own-reader", got=err or n))
+    return fails
+
+
+def _open_writer(order, contigs, typed, sort):
+    import io
+    from maflib.header import MafHeader
+    from maflib.validation import ValidationStringency as VS
+    from maflib.writer import MafWriter
+    lines = (["#version gdc-1.0.0"] if typed else []) + ["#sort.order " + order] + (["#contigs " + ",".join(contigs)] if contigs else [])
+    h = MafHeader.from_lines(lines, validation_stringency=VS.Silent)
+    buf = io.StringIO()
+    buf.close = lambda: None
+    return MafWriter.from_fd(buf, h, validation_stringency=VS.Strict if typed else VS.Silent, assume_sorted=not sort), buf
+
+
+def eval_live(case):
+    """`reused`: ONE record object written several times, re-targeted in place between the writes.  `two`: two sorting
+    writers alive at once whose headers rank the same contig names differently, written alternately."""
+    order, typed, sort = case["order"], case["typed"], case["sort"]
+    where = dict(case, kind="live")
+    fails = []
+    try:
+        if case["family"] == "reused":
+            w, buf = _open_writer(order, case["contigs"], typed, sort)
+            rec = _mk(typed, case["specs"][0])
+            snaps = []
+            for sp in case["specs"]:
+                snaps.append(SC.retarget(rec, _mk(typed, sp)))
+                if case.get("touch"):
+                    _ = (rec.chromosome, rec.start, rec.end)
+                w += rec
+            w.close()
+            fails += _judge_file(where, buf.getvalue(), snaps, order, case["contigs"], sort, typed)
+        else:
+            wa, ba = _open_writer(order, case["contigs"], typed, True)
+            wb, bb = _open_writer(case["order_b"], case["contigs_b"], typed, True)
+            sa, sb = [], []
+            for sp in case["specs"]:
+                ra, rb = _mk(typed, sp), _mk(typed, sp)
+                sa.append(str(ra))
+                sb.append(str(rb))
+                wa += ra
+                wb += rb
+            wa.close()
+            wb.close()
+            fails += _judge_file(dict(where, which="first writer"), ba.getvalue(), sa, order, case["contigs"], True, typed)
+            fails += _judge_file(dict(where, which="second writer"), bb.getvalue(), sb, case["order_b"], case["contigs_b"], True, typed)
+    except Exception as e:  # noqa
+        fails.append(dict(where, what="writing well-formed records failed with %s" % exc_name(e), kind="live-exception"))
+    return fails
+
+
+def live_cases(ctx, out):
+    rng = ctx.rng("c10-live")
+    sets = [["chr1", "chr2", "chr10", "chrX"], ["chr1", "chr10", "chr2", "chrX"], ["chrX", "chr10", "chr2", "chr1"], SC.LONG_CHR]
+    for _ in range(ctx.scale(60, 500)):
+        typed = rng.random() < 0.4
+        order = rng.choice(["Coordinate", "BarcodesAndCoordinate"])
+        contigs = rng.choice(sets + [None])
+        chroms = contigs or ["chr1", "chr2", "chr10", "chrX"]
+        n = rng.choice([2, 3, 4, 5])
+        specs = [(rng.choice(["T1", "T2"]), rng.choice(["N1", "N2", ""]), rng.choice(chroms), rng.choice([5, 9, 10, 100]), 0) for _ in range(n)]
+        specs = [(t, nn, c, s_, s_ + rng.choice([0, 1, 7])) for (t, nn, c, s_, _e) in specs]
+        if rng.random() < 0.55:
+            case = {"family": "reused", "order": order, "contigs": contigs, "typed": typed, "sort": rng.random() < 0.8, "specs": specs, "touch": rng.random() < 0.5}
+        else:
+            cb = rng.choice([c for c in sets if c is not SC.LONG_CHR])
+            ca = contigs if contigs and set(contigs) >= set(cb) else rng.choice([c for c in sets if c is not SC.LONG_CHR])
+            common = [c for c in ca if c in cb]
+            specs = [(t, nn, rng.choice(common), s_, e_) for (t, nn, _c, s_, e_) in specs]
+            case = {"family": "two", "order": order, "contigs": ca, "order_b": rng.choice(["Coordinate", "BarcodesAndCoordinate"]), "contigs_b": cb, "typed": typed, "sort": True, "specs": specs}
+        out.evaluations += 1
+        out.failures += eval_live(case)
+        out.distribution["live:" + case["family"]] += 1
+        out.nontrivial.add(repr(sorted(case.items())))
+
+
 def run(ctx):
     out = Outcome()
     out.rule = ("headers with both sortable orders, contig list absent / lexical / karyotypic (chr1,chr2,...,chr10) / reversed, typed (gdc-1.0.0) and scheme-less records; "
@@ -316,6 +422,7 @@ def run(ctx):
                  "(pragmas in either order), from_defaults and from_reader (contigs= / fasta_index= / a bound order), and taken from a reader: the body is judged by the "
                  "pragmas of the produced file, which is re-read with reader_from when it is on disk")
     route_cases(ctx, out)
+    live_cases(ctx, out)
     return out
 
 
@@ -379,6 +486,16 @@ def header_decl(header):
 
 
 def replay_case(ctx, failure):
+    if failure.get("kind", "").startswith("live") and "family" in failure:
+        case = {k: failure[k] for k in ("family", "order", "contigs", "typed", "sort", "specs", "touch", "order_b", "contigs_b") if k in failure}
+        fails = eval_live(case)
+        print("replay C10: %s; %s records, header order %s contigs %s%s; specs %s" % (
+            "one record object written %d times, re-targeted in place between the writes" % len(case["specs"]) if case["family"] == "reused" else
+            "two sorting writers alive at once (second header: %s %s), written alternately" % (case.get("order_b"), case.get("contigs_b")),
+            "typed" if case["typed"] else "scheme-less", case["order"], case["contigs"], "" if case["sort"] else " (sorting off)", case["specs"]))
+        for x in fails:
+            print("  oracle: %s" % x["what"])
+        return fails
     """Re-evaluate the stored failing input on the current implementation; return the list of failure dicts it
     produces now (empty list = the property holds on that input)."""
     if failure.get("case") == "big-file" or ("n" in failure and "header" not in failure):
